@@ -328,6 +328,7 @@ pub fn witness(out: &HistoryOutcome, seed: u64, idx: u64, extra: serde_json::Val
 
 async fn one_case(report: &Report, seed: u64, idx: u64, thorough: bool) {
     let (spec, class, no_retry) = gen_case(seed, idx, thorough);
+    let t0 = std::time::Instant::now();
     let out = match run_history(&spec, Duration::from_secs(40)).await {
         Ok(o) => o,
         Err(e) => {
@@ -345,11 +346,20 @@ async fn one_case(report: &Report, seed: u64, idx: u64, thorough: bool) {
         return;
     }
     let facts = log_facts(&out.events);
+    let t1 = std::time::Instant::now();
     let sc = check_serial(&out, None).await;
     if let Some(e) = &sc.harness_error {
         report.harness_error(&format!("case {idx}: {e}"));
         return;
     }
+    if (t1 - t0).as_millis() > 3000 {
+        report.count("histories_over_3s", 1);
+        if std::env::var("E_CONC_DEBUG").is_ok() {
+            eprintln!("slow case {idx}: {} ms nondet={} released={} {}", (t1 - t0).as_millis(), out.sched.nondeterministic_steps, out.sched.released.len(), serde_json::to_string(&out.results.iter().map(|r| r.describe()).collect::<Vec<_>>()).unwrap());
+        }
+    }
+    report.count("ms_run_history", (t1 - t0).as_millis() as u64);
+    report.count("ms_check", t1.elapsed().as_millis() as u64);
     count_history(report, &out, &facts);
     report.count("rows_compared", sc.rows_compared);
     report.count("versions_compared", sc.versions_compared);
